@@ -8,7 +8,7 @@
 use std::{
     fmt,
     hash::Hash,
-    ops,
+    mem, ops,
     sync::{Arc, PoisonError, TryLockError, TryLockResult, Weak},
 };
 
@@ -428,7 +428,16 @@ impl<T, L: Lock> Drop for SharedObservable<T, L> {
     fn drop(&mut self) {
         // Only close the state if there are no other clones of this
         // `SharedObservable`.
-        if Arc::strong_count(&self._num_clones) == 1 {
+        //
+        // Finding out whether this is the last clone and giving up our
+        // reference to the clone counter has to be one atomic step: if the
+        // count was only read here and the reference released later (when
+        // the field is dropped), two clones dropped concurrently could both
+        // see a count of 2 and neither would close the state, and a
+        // `WeakObservable::upgrade` racing with the last drop could obtain an
+        // owner of an already closed state.
+        let num_clones = mem::replace(&mut self._num_clones, Arc::new(()));
+        if Arc::into_inner(num_clones).is_some() {
             // If there are no other clones, obtaining a read lock can't fail.
             L::read_noblock(&self.state).close();
         }
